@@ -152,9 +152,28 @@ def run_tlc_trace(trace, meta, module="MCTrace"):
     return res
 
 
+def run_sim(module, cfg, seconds, depth=80, workers=NCPU, seed=1):
+    """Random simulation of a model too large to enumerate (TLC -simulate), for a fixed time: behaviours of `depth` steps are drawn until
+    the time is over; every property and invariant of the cfg is checked on each. Returns the same record as run_mc (not exhaustive)."""
+    meta = os.path.join(WORK, "sim-%s-%d" % (module, os.getpid()))
+    cmd = ["timeout", str(seconds)] + tlc_cmd(SPEC, module, cfg, meta, os.path.join(SPEC, "lib/nat"),
+                                              ["-workers", str(workers), "-simulate", "num=100000000", "-depth", str(depth), "-seed", str(seed)])
+    t0 = time.time()
+    rc, out = sh(cmd, timeout=seconds + 120, cwd=SPEC)
+    shutil.rmtree(meta, ignore_errors=True)
+    res = {"ok": False, "timeout": False, "simulation": True, "states": 0, "distinct": 0, "depth": depth, "violated": [], "out": out[-2500:], "wall_s": time.time() - t0, "rc": rc}
+    ms = re.findall(r"Progress: (\d+) states checked, (\d+) traces generated", out)
+    if ms:
+        res["states"], res["traces"] = int(ms[-1][0]), int(ms[-1][1])
+    res["violated"] = re.findall(r"(?:Action property|Invariant|Temporal property) (\S+) (?:is|was) violated", out)
+    res["ok"] = not res["violated"] and "Error:" not in out and bool(ms)
+    res["reached"] = sorted(set(re.findall(r"REACH (\w+)", out)))
+    return res
+
+
 def run_mc(module, cfg, tier, workers=NCPU, timeout=None, extra=()):
-    timeout = timeout or (3600 if tier == "thorough" else 1500)
     """Exhaustive TLC run on the model; returns dict(states, distinct, depth, ok, violated, out)."""
+    timeout = timeout or (3600 if tier == "thorough" else 1500)
     meta = os.path.join(WORK, "mc-%s-%d" % (module, os.getpid()))
     cmd = tlc_cmd(SPEC, module, cfg, meta, os.path.join(SPEC, "lib/nat"), ["-workers", str(workers)] + list(extra))
     t0 = time.time()
